@@ -182,6 +182,9 @@ def run(prop, tier, seed, rep):
         lo = max(j for j in range(idx) if events[j]["ev"] == "session_start")
         core.anti_vacuity(rep, "Trace_Screen", events[lo:idx + 1], [(idx - lo, lambda e: (e["cells"][0].__setitem__(9, e["cells"][0][9] + "1"), e)[1], "C18")],
                           boundary=lambda e: e["ev"] == "session_start", name="C18-selftest")
+    # where the receiver position comes from with --gpsd: the system's only concurrency (Gpsd.tla; drift only)
+    import gpsd_checks
+    gpsd_checks.run_binding(rep, tier, seed)
     scr = [e for e in events if e["ev"] == "screen"]
     rep.extra.update({"sessions": n, "screens_judged": len(scr),
                       "coverage_folds_checked": sum(1 for e in events if e["ev"] == "coverage"),
